@@ -70,7 +70,8 @@ class RouteDomain(Domain):
             self.routed.append((node, args[0] if args else TOP, state))
             return [("ok", NodeOf(args[0] if args else TOP), state)]
         if name == "check_key_helper":
-            return [("ok", Opaque("validated-key"), state), ("exc", Exc(ORD, "MemcacheIllegalInputError", node.lineno), state)]
+            st = state.set("#validated", state.get("#validated", ()) + ((args[0] if args else TOP),))
+            return [("ok", Opaque("validated-key"), st), ("exc", Exc(ORD, "MemcacheIllegalInputError", node.lineno), state)]
         if name == "self._retry_dead":
             return [("ok", NONE, state)]
         return [("ok", TOP, state)]
@@ -152,8 +153,8 @@ class BatchDomain(Domain):
         return [("ok", TOP, state)]
 
     def _insert(self, state, server, key, value, node):
-        ins = state.get("ins", ())
-        return state.set("ins", ins + ((server, key, value, node.lineno),))
+        ins = state.get("#ins", ())
+        return state.set("#ins", ins + ((server, key, value, node.lineno),))
 
     def subscript_load(self, objval, idxval, node, state):
         if objval == Opaque("batches"):
@@ -183,7 +184,7 @@ class DispatchDomain(Domain):
     async_enabled = False
     unpack_may_raise = False
     subscript_may_raise = False
-    global_keys = ("runs", "merges")
+    global_keys = ("#runs", "#merges")
 
     def truth(self, v, state=None):
         if isinstance(v, Truthiness):
@@ -215,7 +216,7 @@ class DispatchDomain(Domain):
 
     def name_store(self, name, value, state, node=None):
         if isinstance(value, tuple) and value and value[0] == "acc+":
-            state = state.set("merges", state.get("merges", ()) + ((name, value[2]),))
+            state = state.set("#merges", state.get("#merges", ()) + ((name, value[2]),))
             value = ("acc", name)
         return state.set(name, value)
 
@@ -261,11 +262,11 @@ class DispatchDomain(Domain):
                         flat.append(("STAR?", av if _h(av) else "?"))
                 else:
                     flat.append(av if _h(av) else TOP)
-            runs = state.get("runs", ())
-            st = state.set("runs", runs + ((name, tuple(flat)),))
+            runs = state.get("#runs", ())
+            st = state.set("#runs", runs + ((name, tuple(flat)),))
             return [("ok", ResultOf(len(runs) + 1), st)]
         if isinstance(node.func, ast.Attribute) and node.func.attr == "update" and isinstance(node.func.value, ast.Name) and args:
-            return [("ok", NONE, state.set("merges", state.get("merges", ()) + ((node.func.value.id, args[0]),)))]
+            return [("ok", NONE, state.set("#merges", state.get("#merges", ()) + ((node.func.value.id, args[0]),)))]
         return [("ok", TOP, state)]
 
 
@@ -291,7 +292,7 @@ def run_cmd_problems(prog):
     problems = []
     routed = 0
     for s_, v, t in outs.of("ret"):
-        runs = s_.get("runs", ())
+        runs = s_.get("#runs", ())
         if not runs:
             if v != Sym("default"):
                 problems.append("without a routed client it returns %s instead of default_val" % _d(v))
@@ -324,16 +325,17 @@ class HashDomain(ExactCollections, Domain):
     subscript_may_raise = False
     unpack_may_raise = False
     max_inline_depth = 3
-    global_keys = ("runs", "routes", "imprecise")
+    global_keys = ("#runs", "#routes", "#imprecise")
     SUMMARISED = ("_get_client", "_safely_run_func", "_safely_run_set_many", "_make_client_key", "_retry_dead", "_mark_failed_server")
 
-    def __init__(self, prog, fn, route, fails=()):
+    def __init__(self, prog, fn, route, fails=(), inner=None):
         super().__init__(prog, fn)
         self.route = route  # key tag -> server name | None
         self.fails = set(fails)  # inner keys the server refuses (set_many)
+        self.inner = inner or {}  # key tag -> tag of its inner key (two (server_key, key) pairs may share one)
 
     def mark_imprecise(self, state, node):
-        return state.set("imprecise", 1)
+        return state.set("#imprecise", 1)
 
     def name_load(self, name, state, node=None):
         return state.get(name, TOP)
@@ -378,11 +380,11 @@ class HashDomain(ExactCollections, Domain):
         if name == "self._get_client":
             k = args[0] if args else TOP
             tag = k.tag if isinstance(k, Opaque) else None
-            st = state.set("routes", state.get("routes", ()) + (deref(k, state),))
+            st = state.set("#routes", state.get("#routes", ()) + (deref(k, state),))
             if tag not in self.route:
                 return [("ok", TupleV((TOP, TOP)), self.mark_imprecise(st, node))]
             srv = self.route[tag]
-            return [("ok", TupleV((Opaque("client:" + srv) if srv is not None else NONE, Opaque("inner:" + tag))), st)]
+            return [("ok", TupleV((Opaque("client:" + srv) if srv is not None else NONE, Opaque("inner:" + self.inner.get(tag, tag)))), st)]
         if name == "self._make_client_key" and args and isinstance(args[0], Opaque) and args[0].tag.startswith("server:"):
             return [("ok", Opaque("node:" + args[0].tag[7:]), state)]
         if name == "getattr" and len(args) == 2 and isinstance(args[0], Opaque) and args[0].tag.startswith("client:"):
@@ -390,7 +392,7 @@ class HashDomain(ExactCollections, Domain):
         if name in ("self._safely_run_func", "self._safely_run_set_many"):
             flat = self._flat(node, args, state)
             kw = tuple(sorted((k, deref(v, state)) for k, v in kwargs.items() if not k.startswith("**")))
-            st = state.set("runs", state.get("runs", ()) + ((name[5:], flat, kw),))
+            st = state.set("#runs", state.get("#runs", ()) + ((name[5:], flat, kw),))
             client = flat[0] if flat else TOP
             srv = client.tag[7:] if isinstance(client, Opaque) and client.tag.startswith("client:") else "?"
             if name.endswith("set_many"):
@@ -422,15 +424,18 @@ def batching_rows(prog, hc, r3, r4):
     from .colls import GenV, new_object
     from .rules_C05 import Val
 
-    K = [Opaque("K1"), Opaque("K2"), Opaque("K3")]
-    I = {k.tag: Opaque("inner:" + k.tag) for k in K}
+    ALL = [Opaque("K1"), Opaque("K2"), Opaque("K3")]
+    I = {k.tag: Opaque("inner:" + k.tag) for k in ALL}
     routes = [
         {"K1": "A", "K2": "B", "K3": "A"},
         {"K1": "B", "K2": "B", "K3": "A"},
         {"K1": "A", "K2": "A", "K3": "A"},
         {"K1": "A", "K2": None, "K3": "A"},
         {"K1": None, "K2": None, "K3": None},
+        {"K1": "A"},  # a single key (a special-cased one-key path must behave like the general one)
+        {"K1": None},
     ]
+    K = list(ALL)
 
     def servers_in_order(route):
         out = []
@@ -466,9 +471,9 @@ def batching_rows(prog, hc, r3, r4):
         if excs or not rets:
             problems.append("it raises %s" % sorted({str(e.cls) for s, e, t in excs}) if excs else "it does not return")
         for s, v, t in rets:
-            if s.get("imprecise", 0):
+            if s.get("#imprecise", 0):
                 vague = True
-            runs = s.get("runs", ())
+            runs = s.get("#runs", ())
             val = deref(v, s)
             if want_runs is not None and not _same_runs(runs, want_runs):
                 problems.append("the safe runner is called as %s; expected %s" % (_runs_txt(runs), _runs_txt(want_runs)))
@@ -483,6 +488,7 @@ def batching_rows(prog, hc, r3, r4):
 
     n = 0
     for route in routes:
+        K[:] = [k for k in ALL if k.tag in route]
         rt = ", ".join("%s->%s" % (k, v or "no server") for k, v in sorted(route.items()))
         order = servers_in_order(route)
         for mname, gets in (("get_many", False), ("get_many", True), ("gets_many", None)):
@@ -492,7 +498,7 @@ def batching_rows(prog, hc, r3, r4):
                 f, outs = run(mname, route, oneshot=oneshot, gets=gets)
                 want_runs = [("_safely_run_func", (Opaque("client:" + srv), BoundCall(Opaque("client:" + srv), Const(meth)), DictV(()), TupleV(tuple(I[k.tag] for k in K if route[k.tag] == srv))), ()) for srv in order]
                 want_value = DictV(tuple((I[k.tag], Opaque("value:%s:%s" % (route[k.tag], I[k.tag].tag))) for k in K if route[k.tag] is not None))
-                what = "HashClient.%s(%s%s) with routing %s" % (mname, "gets=%s, " % gets if gets is not None else "", "one-shot keys" if oneshot else "3 keys", rt)
+                what = "HashClient.%s(%s%s) with routing %s" % (mname, "gets=%s, " % gets if gets is not None else "", "one-shot keys" if oneshot else "%d key(s)" % len(K), rt)
                 check(r3, f, outs, what + ": one %s call per server with exactly its own keys" % meth, "HashClient.%s:batches" % mname, want_runs, None, "each key must be sent once, to the client of the server its own routing call returned, under its inner key; a key without server is skipped")
                 check(r4, f, outs, what + ": the answers of all servers are merged", "HashClient.%s:merge" % mname, None, want_value, "the result is the union of the per-server answers")
         for fails in ((), ("inner:K3",), ("inner:K1", "inner:K2")):
@@ -501,15 +507,38 @@ def batching_rows(prog, hc, r3, r4):
             want_runs = [("_safely_run_set_many", (Opaque("client:" + srv), DictV(tuple((I[k.tag], Opaque("val:" + k.tag)) for k in K if route[k.tag] == srv))), ()) for srv in order]
             unrouted = [I[k.tag] for k in K if route[k.tag] is None]
             refused = [I[k.tag] for srv in order for k in K if route[k.tag] == srv and I[k.tag].tag in fails]
-            what = "HashClient.set_many(3 items) with routing %s, refused by the servers: %s" % (rt, list(fails) or "none")
+            what = "HashClient.set_many(%d item(s)) with routing %s, refused by the servers: %s" % (len(K), rt, list(fails) or "none")
             check(r3, f, outs, what + ": one set_many per server with exactly its own items", "HashClient.set_many:batches", want_runs, None, "each item must be sent once, to the client of the server its own routing call returned, under its inner key with its own value")
             check(r4, f, outs, what + ": failed keys = keys without server + keys the servers refused", "HashClient.set_many:merge", None, TupleV(tuple(unrouted + refused)), "set_many returns every key that was not stored")
         for oneshot in (False, True):
             n += 1
             f, outs = run("delete_many", route, oneshot=oneshot)
             want_runs = [("_safely_run_func", (Opaque("client:" + route[k.tag]), BoundCall(Opaque("client:" + route[k.tag]), Const("delete")), Const(False), I[k.tag]), ()) for k in K if route[k.tag] is not None]
-            what = "HashClient.delete_many(%s) with routing %s" % ("one-shot keys" if oneshot else "3 keys", rt)
+            what = "HashClient.delete_many(%s) with routing %s" % ("one-shot keys" if oneshot else "%d key(s)" % len(K), rt)
             check(r4, f, outs, what + ": delete runs once per key, on that key's server", "HashClient.delete_many:visits", want_runs, Const(True), "delete_many runs the delete command exactly once for every key")
+    # two (server_key, key) pairs with the same inner key on different servers: both servers are asked for it
+    for mname in ("get_many", "gets_many"):
+        n += 1
+        f = prog.method(hc, mname)
+        dom = HashDomain(prog, f, {"P1": "A", "P2": "B"}, inner={"P1": "X", "P2": "X"})
+        env = {}
+        for p in f.params:
+            if p.name == "self":
+                continue
+            if p.name == "keys":
+                env["keys"] = TupleV((Opaque("P1"), Opaque("P2")))
+            elif p.kind == "vararg":
+                env[p.name] = TupleV(())
+            elif p.kind == "kwarg":
+                new_object(env, p.name, "dict", DictV(()))
+            elif p.name == "gets":
+                env[p.name] = Const(False)
+            else:
+                env[p.name] = Val("arg:" + p.name)
+        outs = Interp(dom, f.node, prog).run(Env(env))
+        meth = "gets_many" if mname == "gets_many" else "get_many"
+        want_runs = [("_safely_run_func", (Opaque("client:" + srv), BoundCall(Opaque("client:" + srv), Const(meth)), DictV(()), TupleV((Opaque("inner:X"),))), ()) for srv in ("A", "B")]
+        check(r3, f, outs, "HashClient.%s([(s1, k), (s2, k)]) with s1->A, s2->B: each server is asked for k" % mname, "HashClient.%s:batches" % mname, want_runs, None, "two pairs that share the inner key but are routed to different servers are two requests, as two single-key calls would be")
     r3.count("batching scenarios", n)
     r3.floor("batching scenarios", n, 40)
 
@@ -600,6 +629,10 @@ def run(chk):
                 else:
                     r2.fail("HashClient._get_client:return-shape", "_get_client returns %s" % _d(v), fn=gc)
     r2.floor("return paths of _get_client", n_paths, 4)
+    # "recomputed from the rotation" also needs the hasher itself to be a function of (key, rotation) and nothing else
+    from . import rules_C11, report
+
+    report.include_rules(chk, r2, rules_C11, ("C11.R1",), "the router's answer depends only on the key and the current rotation (no memo, no process state)")
 
     # ------------------------------------------------------------------ R3 / R4 batches
     r3 = chk.rule("C12.R3", "batching: each key is inserted exactly once, under the inner key, into the batch of the server its own routing call returned; skipped only when no server is left; each batch dispatched once to that server's client")
